@@ -21,7 +21,14 @@ func isCtrlSym(s string) bool {
 // rounds; an assertion "(= name term)" defining a named term is included exactly when the name
 // is needed. Declarations are kept. The result has fewer assumptions than the input, never
 // different ones. Returns "" if nothing would be dropped.
-func sliceQuery(text string, depth int) string {
+func sliceQuery(text string, depth int) string { return sliceQueryTol(text, depth, 0) }
+
+// sliceQueryTol: with tol > 0 an assertion joins the slice only through one of its trigger
+// symbols - its rarest data symbols, those occurring in at most tol times as many assertions as
+// its rarest one (the SInE axiom-selection rule of large-theory provers): a hypothesis that
+// merely mentions a ubiquitous heap or parameter is left out. Sound for the same reason as the
+// plain slice: assumptions are only dropped, and only `unsat` is taken from a slice.
+func sliceQueryTol(text string, depth int, tol float64) string {
 	lines := strings.Split(text, "\n")
 	decl := map[string]bool{}
 	for _, l := range lines {
@@ -62,6 +69,30 @@ func sliceQuery(text string, depth int) string {
 			}
 		}
 	}
+	occ := map[string]int{}
+	for _, a := range asserts {
+		for s := range a.syms {
+			occ[s]++
+		}
+	}
+	trigger := func(a *as) map[string]bool {
+		if tol <= 0 {
+			return a.syms
+		}
+		min := 0
+		for s := range a.syms {
+			if !isCtrlSym(s) && (min == 0 || occ[s] < min) {
+				min = occ[s]
+			}
+		}
+		t := map[string]bool{}
+		for s := range a.syms {
+			if !isCtrlSym(s) && float64(occ[s]) <= tol*float64(min) {
+				t[s] = true
+			}
+		}
+		return t
+	}
 	cone := map[string]bool{}
 	inc := map[int]bool{goal.idx: true}
 	for s := range goal.syms {
@@ -84,18 +115,32 @@ func sliceQuery(text string, depth int) string {
 		}
 	}
 	closeDefs()
+	if tol > 0 {
+		// the allocation-order skeleton (short ground facts about the allocation counter and
+		// fresh references) is always kept: non-aliasing arguments need the whole chain, and no
+		// link of it is rare-symbol-relevant to a goal about contents
+		for _, a := range asserts {
+			l := lines[a.idx]
+			if !inc[a.idx] && len(l) <= 160 && !strings.Contains(l, "(forall ") && (strings.Contains(l, "$alloc") || strings.HasPrefix(l, "(assert (= ref.")) {
+				inc[a.idx] = true
+			}
+		}
+	}
 	for d := 0; d < depth; d++ {
 		var add []*as
 		for _, a := range asserts {
 			if inc[a.idx] || isDef[a.idx] {
 				continue
 			}
-			for s := range a.syms {
+			for s := range trigger(a) {
 				if !isCtrlSym(s) && cone[s] {
 					add = append(add, a)
 					break
 				}
 			}
+		}
+		if len(add) == 0 {
+			break
 		}
 		for _, a := range add {
 			inc[a.idx] = true
